@@ -345,6 +345,62 @@ func vfGenIdleBump(t *rapid.T, c *vfProdCase) {
 	c.CloseMode = "async"
 }
 
+// vfGenParkedFlush is a directed template that owns the schedule through a hook gate instead of hoping for it: a retriable
+// failure raises the hot partition's retry level; the partition producer is held inside newHighWatermark (hook
+// prod.partition.hwm) while the partition is made leaderless and fresh messages are submitted, so that these are certainly
+// parked behind the retry and the leader lookup certainly fails when the end-of-retry marker comes back and the parked
+// messages are flushed; then the leader returns and a later message goes through a second retry cycle on the same partition
+// (which flushes the parked level again).
+func vfGenParkedFlush(t *rapid.T, c *vfProdCase) {
+	c.Conf.Idempotent = false
+	if c.Conf.Acks == 0 {
+		c.Conf.Acks = 1
+	}
+	if c.Conf.RetryMax == 0 {
+		c.Conf.RetryMax = 1 + rapid.IntRange(0, 2).Draw(t, "park.retryMax")
+	}
+	c.Conf.ChanBuf = 256
+	c.Conf.FlushMessages, c.Conf.FlushBytes, c.Conf.FlushFreqUs = 0, 0, rapid.SampledFrom([]int{0, 0, 500}).Draw(t, "park.freq")
+	c.Conf.MetaRetryMax = rapid.IntRange(0, 1).Draw(t, "park.metaRetry")
+	c.Conf.BackoffUs = rapid.SampledFrom([]int{0, 100}).Draw(t, "park.backoff")
+	c.Sync = 0
+	hotT, hotP := c.Msgs[0].Topic, c.Msgs[0].Part
+	if c.Topics[hotT].Leaders[hotP] < 0 {
+		c.Topics[hotT].Leaders[hotP] = 1
+	}
+	leader := c.Topics[hotT].Leaders[hotP]
+	key := fmt.Sprintf("%s/%d", c.Topics[hotT].Name, hotP)
+	n := len(c.Msgs)
+	for i := range c.Msgs {
+		c.Msgs[i].Topic, c.Msgs[i].Part = hotT, hotP
+	}
+	c.Conf.Partitioner = "manual"
+	code := rapid.SampledFrom(vfRetriableCodes).Draw(t, "park.code")
+	a := 1
+	b := a + 1 + rapid.IntRange(0, (n-3)/2).Draw(t, "park.parked")
+	if b > n-1 {
+		b = n - 1
+	}
+	// first request fails retriably; everything up to the second cycle is answered normally; the first request after the
+	// leader is back fails retriably once more
+	c.Faults = map[string][]vfFault{"produce/" + key: {{Kind: "err", Code: code}, {Kind: "err", Code: code}}}
+	c.Script = []vfStep{
+		{Op: "hookBlock", Key: "prod.partition.hwm", A: 0, B: 3000},
+		{Op: "send", A: 0, B: a},
+		{Op: "hookWait", Key: "prod.partition.hwm", B: 3000},
+		{Op: "leaderless", Key: key},
+		{Op: "send", A: a, B: b},
+		{Op: "hookRelease", Key: "prod.partition.hwm"},
+		{Op: "waitOutcomes", A: b},
+		{Op: "moveLeader", Key: key, A: int(leader)},
+		{Op: "send", A: b, B: n},
+		{Op: "waitOutcomes", A: n},
+	}
+	c.Delays = nil
+	c.StormDelays = true
+	c.CloseMode = rapid.SampledFrom([]string{"async", "close"}).Draw(t, "park.close")
+}
+
 // vfGenRetryStorm is a directed template: a retriable failure puts the hot partition into a retry, fresh messages are parked
 // behind it, the partition is leaderless exactly while the retry buffers are flushed (so the parked messages fail), then the
 // leader comes back and a later message goes through another retry cycle on the same partition.
@@ -446,8 +502,11 @@ func vfGenProdCase(t *rapid.T, emph string) *vfProdCase {
 		}
 	}
 	vfGenScript(t, c, gates)
-	if (emph == "C01" || emph == "C02" || emph == "C12") && len(c.Msgs) >= 4 && rapid.IntRange(0, 3).Draw(t, "retryStorm") == 0 {
+	if (emph == "C01" || emph == "C02" || emph == "C12") && len(c.Msgs) >= 4 && (rapid.IntRange(0, 3).Draw(t, "retryStorm") == 0 || vfcore.EnvInt("VF_FORCE_STORM", 0) > 0) {
 		vfGenRetryStorm(t, c)
+	}
+	if (emph == "C01" || emph == "C02" || emph == "C12") && !c.StormDelays && len(c.Msgs) >= 4 && (rapid.IntRange(0, 7).Draw(t, "parkedFlush") == 0 || vfcore.EnvInt("VF_FORCE_PARK", 0) > 0) {
+		vfGenParkedFlush(t, c)
 	}
 	if emph == "C05" && rapid.IntRange(0, 3).Draw(t, "idleBump") == 0 {
 		vfGenIdleBump(t, c)
